@@ -982,7 +982,7 @@ func (ex *Exec) execLoop(lp *loopParts) {
 			if lab == "" {
 				lab = fmt.Sprint(i + 1)
 			}
-			if kind == "assume" {
+			if kind == "assume" || (c.FromBase && ex.skipSafety) {
 				ex.assume(g)
 			} else {
 				ex.curPos = lp.pos
